@@ -692,7 +692,9 @@ def sub_valid(ctx, doc):
                     route in ("Tree.get", "TreeList.get", "Matrix.get"):
                 continue
             if expect_return or outcome == "parse_error":
-                ctx.fail("valid_document_accepted", "C20:valid:rejected:%s" % schema,
+                quoted_semi = schema == "nexus" and "';'" in text
+                ctx.fail("valid_document_accepted", "C20:valid:rejected:%s%s" % (
+                    schema, ":quoted_semicolon_label" if quoted_semi else ""),
                          "route %s answered %s on the valid document %r" % (route, outcome, text[:500]))
             continue
         if content is None:
